@@ -95,7 +95,7 @@ char *sdupn(const char *p, long n) { char *q = malloc(n + 1); memcpy(q, p, n); q
 
 def gen_native(seed, tier, modname="c09strn"):
     r = random.Random(seed * 1000003 + (101 if tier == "quick" else 103))
-    n_each = 30 if tier == "quick" else 300
+    n_each = 30 if tier == "quick" else 120
     kinds = ["str", "alloca", "alloc", "gostr", "gostrn", "rt", "cstrs", "edge"]
     units = []
     for k in kinds:
@@ -238,7 +238,7 @@ func AllocCStr(s string) *c.Char
 def gen_cgo(seed, tier, modname="c09strc", kinds=None, n_each=None):
     """cgo program.  kinds 'gobytes_alias' and 'cbytes_empty' isolate two constructs with their own findings."""
     r = random.Random(seed * 1000003 + (107 if tier == "quick" else 109))
-    n_each = n_each or (30 if tier == "quick" else 300)
+    n_each = n_each or (30 if tier == "quick" else 120)
     kinds = kinds or ["cstring", "cbytes", "gostring", "gostringn", "gobytes", "edge"]
     units = []
     for k in kinds:
